@@ -5,14 +5,25 @@
   * `head_shortest`      : no legal head for the same argument is shorter
   * `enc_eq_spec`        : for every well-formed token tree, the encoder accepts `flatten v`, signals done
                            exactly on the last token, and the bytes written are `Spec.Cbor.enc v`
-  * `roundtrip`          : decoding `enc v ++ rest` with the decoder model yields `flatten (canon v)`,
+  * `roundtrip_norm`     : decoding `enc v ++ rest` with the decoder model yields `flatten v` mapped through
+                           `normTok` (= `canonTok`, plus every indefinite declared length comes back as -1),
                            done on the last token, and leaves exactly `rest`
+  * `roundtrip_statement`: the round trip as first stated (tokens = `flatten v` mapped through `canonTok`);
+                           `roundtrip_statement_false` refutes it (`.arr none (-2) []` is well-formed and
+                           supported, is written as 0x9f 0xff, and comes back as `arrOpen (-1)`)
+  * `roundtrip_partial`  : the first statement plus the hypothesis that every declared length is >= -1
+
+  Machine-level lemmas live in RefmtProofs/Lemmas/{Heads,CborEnc,CborDec}.lean; the inductions over
+  token trees (`encV/encL/encE`, `decV/decL/decE`, `lenV/lenL/lenE`) are here.
 -/
 import RefmtModel
+import RefmtProofs.Lemmas.Heads
+import RefmtProofs.Lemmas.CborEnc
+import RefmtProofs.Lemmas.CborDec
 set_option linter.unusedSimpArgs false
 set_option linter.unusedVariables false
 namespace Refmt.C02
-open Refmt
+open Refmt Refmt.C02L
 
 /-! ### Heads -/
 
@@ -26,15 +37,26 @@ inductive ValidHead (major n : Nat) : Bytes → Prop
   | w8 (h : n < 18446744073709551616) : ValidHead major n ((major + 27) :: beBytes 8 n)
 
 theorem emitHead_eq_head (major v : Nat) (hv : v < two64) :
-    (CborEnc.emitHead major v).flatten = Spec.Cbor.head major v := by
-  sorry
+    (CborEnc.emitHead major v).flatten = Spec.Cbor.head major v :=
+  emitHead_flatten major v
 
 theorem head_valid (major n : Nat) (hn : n < two64) : ValidHead major n (Spec.Cbor.head major n) := by
-  sorry
+  unfold Spec.Cbor.head
+  unfold two64 at hn
+  split
+  · exact .imm ‹_›
+  split
+  · exact .w1 ‹_›
+  split
+  · exact .w2 ‹_›
+  split
+  · exact .w4 ‹_›
+  · exact .w8 hn
 
 theorem head_shortest (major n : Nat) (h : Bytes) (hv : ValidHead major n h) :
     (Spec.Cbor.head major n).length ≤ h.length := by
-  sorry
+  unfold Spec.Cbor.head
+  cases hv <;> (repeat' split) <;> simp [beBytes_length] <;> omega
 
 /-! ### Well-formed token trees (the property's quantifier domain) -/
 
@@ -67,13 +89,248 @@ end
 
 /-! ### Encoder = specification -/
 
+theorem tokInRange_scalar {t : Tok} (h : tokInRange t = true) : t.body.isScalar = true := by
+  unfold tokInRange at h
+  cases hb : t.body <;> simp [hb] at h <;> rfl
+
+theorem tokInRange_int {t : Tok} (h : tokInRange t = true) :
+    ∀ i, t.body = .int i → - (two63 : Int) ≤ i ∧ i < (two63 : Int) := by
+  intro i hb
+  unfold tokInRange at h
+  simp [hb] at h
+  exact h.1
+
+/-- Writes of a scalar token are its spec encoding. -/
+theorem scalar_writes {t : Tok} (h : tokInRange t = true) :
+    (CborEnc.tagHead t.tag ++ CborEnc.scalarWrites t.body).flatten = Spec.Cbor.enc (.scalar t) := by
+  simp [Spec.Cbor.enc, tagHead_flatten, scalarWrites_flatten _ (tokInRange_int h)]
+
+theorem open_writes (isMap : Bool) (tag : Option Int) (len : Int) (hl : len < (two63 : Int)) (h0 : 0 ≤ len) :
+    (CborEnc.tagHead tag ++ CborEnc.openWrites isMap len).flatten =
+      Spec.Cbor.tagBytes tag ++ Spec.Cbor.head (if isMap then 0xa0 else 0x80) len.toNat := by
+  simp [tagHead_flatten, openWrites_flatten isMap len h0 hl]
+
+theorem open_writes_neg (isMap : Bool) (tag : Option Int) (len : Int) (h0 : ¬ 0 ≤ len) :
+    (CborEnc.tagHead tag ++ CborEnc.openWrites isMap len).flatten =
+      Spec.Cbor.tagBytes tag ++ [if isMap then 0xbf else 0x9f] := by
+  cases isMap <;> simp [tagHead_flatten, CborEnc.openWrites, h0, CborEnc.sigIndefMap, CborEnc.sigIndefArr]
+
+/-- The phase in which the items of a container are consumed. -/
+theorem openPhase_arr (len : Int) :
+    CborEnc.openPhase false len = .arrDef ∨ CborEnc.openPhase false len = .arrIndef := by
+  unfold CborEnc.openPhase; split <;> simp
+
+theorem openPhase_map (len : Int) :
+    (CborEnc.openPhase true len = .mapDefKey) ∨ (CborEnc.openPhase true len = .mapIndefKey) := by
+  unfold CborEnc.openPhase; split <;> simp
+
+/-- Closing a container whose frame sits on a non-empty stack. -/
+theorem arrClose_nested (p c : CborEnc.Phase) (r : List CborEnc.Phase)
+    (hp : p = .arrDef ∨ p = .arrIndef) :
+    (CborEnc.step ⟨p :: c :: r, p⟩ ⟨.arrClose, none⟩).ret.flag = .cont ∧
+    (CborEnc.step ⟨p :: c :: r, p⟩ ⟨.arrClose, none⟩).st = ⟨c :: r, c⟩ ∧
+    (CborEnc.step ⟨p :: c :: r, p⟩ ⟨.arrClose, none⟩).writes = (if p = .arrDef then [] else [[0xff]]) := by
+  rcases hp with rfl | rfl <;>
+    simp [CborEnc.step, CborEnc.stepArrClose, CborEnc.popRet, CborEnc.pop, Ret.flag, CborEnc.sigBreak]
+
+theorem mapClose_nested (p c : CborEnc.Phase) (r : List CborEnc.Phase)
+    (hp : p = .mapDefKey ∨ p = .mapIndefKey) :
+    (CborEnc.step ⟨p :: c :: r, p⟩ ⟨.mapClose, none⟩).ret.flag = .cont ∧
+    (CborEnc.step ⟨p :: c :: r, p⟩ ⟨.mapClose, none⟩).st = ⟨c :: r, c⟩ ∧
+    (CborEnc.step ⟨p :: c :: r, p⟩ ⟨.mapClose, none⟩).writes = (if p = .mapDefKey then [] else [[0xff]]) := by
+  rcases hp with rfl | rfl <;>
+    simp [CborEnc.step, CborEnc.stepMapClose, CborEnc.popRet, CborEnc.pop, Ret.flag, CborEnc.sigBreak]
+
+theorem arrClose_top (p : CborEnc.Phase) (hp : p = .arrDef ∨ p = .arrIndef) :
+    (CborEnc.step ⟨[p], p⟩ ⟨.arrClose, none⟩).ret.flag = .done ∧
+    (CborEnc.step ⟨[p], p⟩ ⟨.arrClose, none⟩).writes = (if p = .arrDef then [] else [[0xff]]) := by
+  rcases hp with rfl | rfl <;>
+    simp [CborEnc.step, CborEnc.stepArrClose, CborEnc.popRet, CborEnc.pop, Ret.flag, CborEnc.sigBreak]
+
+theorem mapClose_top (p : CborEnc.Phase) (hp : p = .mapDefKey ∨ p = .mapIndefKey) :
+    (CborEnc.step ⟨[p], p⟩ ⟨.mapClose, none⟩).ret.flag = .done ∧
+    (CborEnc.step ⟨[p], p⟩ ⟨.mapClose, none⟩).writes = (if p = .mapDefKey then [] else [[0xff]]) := by
+  rcases hp with rfl | rfl <;>
+    simp [CborEnc.step, CborEnc.stepMapClose, CborEnc.popRet, CborEnc.pop, Ret.flag, CborEnc.sigBreak]
+
+/-- Bytes of a container body + close, given the bytes of the open and of the items. -/
+theorem enc_arr_eq (tag : Option Int) (len : Int) (items : List TV) :
+    Spec.Cbor.enc (.arr tag len items) =
+      (Spec.Cbor.tagBytes tag ++ (if 0 ≤ len then Spec.Cbor.head 0x80 len.toNat else [0x9f])) ++
+        Spec.Cbor.encList items ++ (if 0 ≤ len then [] else [0xff]) := by
+  by_cases h : 0 ≤ len <;> simp [Spec.Cbor.enc, h]
+
+theorem enc_map_eq (tag : Option Int) (len : Int) (es : List (TV × TV)) :
+    Spec.Cbor.enc (.map tag len es) =
+      (Spec.Cbor.tagBytes tag ++ (if 0 ≤ len then Spec.Cbor.head 0xa0 len.toNat else [0xbf])) ++
+        Spec.Cbor.encEntries es ++ (if 0 ≤ len then [] else [0xff]) := by
+  by_cases h : 0 ≤ len <;> simp [Spec.Cbor.enc, h]
+
+theorem open_writes_eq (isMap : Bool) (tag : Option Int) (len : Int) (hl : len < (two63 : Int)) :
+    (CborEnc.tagHead tag ++ CborEnc.openWrites isMap len).flatten =
+      Spec.Cbor.tagBytes tag ++ (if 0 ≤ len then Spec.Cbor.head (if isMap then 0xa0 else 0x80) len.toNat
+                                  else [if isMap then 0xbf else 0x9f]) := by
+  by_cases h : 0 ≤ len
+  · simp [h, open_writes isMap tag len hl h]
+  · simp [h, open_writes_neg isMap tag len h]
+
+theorem open_writes_arr (tag : Option Int) (len : Int) (hl : len < (two63 : Int)) :
+    (CborEnc.tagHead tag ++ CborEnc.openWrites false len).flatten =
+      Spec.Cbor.tagBytes tag ++ (if 0 ≤ len then Spec.Cbor.head 0x80 len.toNat else [0x9f]) := by
+  simpa using open_writes_eq false tag len hl
+
+theorem open_writes_map (tag : Option Int) (len : Int) (hl : len < (two63 : Int)) :
+    (CborEnc.tagHead tag ++ CborEnc.openWrites true len).flatten =
+      Spec.Cbor.tagBytes tag ++ (if 0 ≤ len then Spec.Cbor.head 0xa0 len.toNat else [0xbf]) := by
+  simpa using open_writes_eq true tag len hl
+
+theorem close_writes_arr (len : Int) :
+    (if CborEnc.openPhase false len = .arrDef then ([] : List Bytes) else [[0xff]]).flatten =
+      (if 0 ≤ len then [] else [0xff]) := by
+  unfold CborEnc.openPhase; by_cases h : 0 ≤ len <;> simp [h]
+
+theorem close_writes_map (len : Int) :
+    (if CborEnc.openPhase true len = .mapDefKey then ([] : List Bytes) else [[0xff]]).flatten =
+      (if 0 ≤ len then [] else [0xff]) := by
+  unfold CborEnc.openPhase; by_cases h : 0 ≤ len <;> simp [h]
+
+mutual
+  /-- One value in a nested value position. -/
+  theorem encV : ∀ (v : TV), WFv v = true → ∀ (c cur : CborEnc.Phase) (r : List CborEnc.Phase),
+      CborEnc.valuePos cur = some c → cur ≠ .any →
+      ∃ ws, ws.flatten = Spec.Cbor.enc v ∧ Runs ⟨c :: r, cur⟩ v.flatten ws ⟨c :: r, c⟩
+    | .scalar t, h, c, cur, r, hc, hne => by
+      have ht : tokInRange t = true := by simpa [WFv] using h
+      have hstep := step_scalar (c :: r) cur c t (tokInRange_scalar ht) hc
+      refine ⟨_, scalar_writes ht, ?_⟩
+      have hf : (CborEnc.step ⟨c :: r, cur⟩ t).ret.flag = .cont := by
+        rw [hstep]; simp [Ret.flag, hne]
+      have := Runs.single hf
+      rw [hstep] at this
+      simpa [TV.flatten] using this
+    | .arr tag len items, h, c, cur, r, hc, hne => by
+      simp only [WFv, Bool.and_eq_true, decide_eq_true_eq] at h
+      obtain ⟨⟨_, hl⟩, hitems⟩ := h
+      obtain ⟨ws, hws, hruns⟩ := encL items hitems (CborEnc.openPhase false len) (c :: r) (openPhase_arr len)
+      have hopen := step_arrOpen (c :: r) cur c tag len hc
+      have hcl := arrClose_nested (CborEnc.openPhase false len) c r (openPhase_arr len)
+      have hf : (CborEnc.step ⟨c :: r, cur⟩ ⟨.arrOpen len, tag⟩).ret.flag = .cont := by
+        rw [hopen]; simp [Ret.flag]
+      have h1 := Runs.single hf
+      rw [hopen] at h1
+      have h3 := Runs.single hcl.1
+      rw [hcl.2.1, hcl.2.2] at h3
+      have := (h1.append hruns).append h3
+      refine ⟨_, ?_, by simpa [TV.flatten] using this⟩
+      rw [enc_arr_eq, ← open_writes_arr tag len hl, ← hws, ← close_writes_arr]
+      simp [List.flatten_append]
+    | .map tag len es, h, c, cur, r, hc, hne => by
+      simp only [WFv, Bool.and_eq_true, decide_eq_true_eq] at h
+      obtain ⟨⟨_, hl⟩, hes⟩ := h
+      obtain ⟨ws, hws, hruns⟩ := encE es hes (CborEnc.openPhase true len) (c :: r) (openPhase_map len)
+      have hopen := step_mapOpen (c :: r) cur c tag len hc
+      have hcl := mapClose_nested (CborEnc.openPhase true len) c r (openPhase_map len)
+      have hf : (CborEnc.step ⟨c :: r, cur⟩ ⟨.mapOpen len, tag⟩).ret.flag = .cont := by
+        rw [hopen]; simp [Ret.flag]
+      have h1 := Runs.single hf
+      rw [hopen] at h1
+      have h3 := Runs.single hcl.1
+      rw [hcl.2.1, hcl.2.2] at h3
+      have := (h1.append hruns).append h3
+      refine ⟨_, ?_, by simpa [TV.flatten] using this⟩
+      rw [enc_map_eq, ← open_writes_map tag len hl, ← hws, ← close_writes_map]
+      simp [List.flatten_append]
+  /-- The items of an array. -/
+  theorem encL : ∀ (vs : List TV), WFl vs = true → ∀ (p : CborEnc.Phase) (r : List CborEnc.Phase),
+      (p = .arrDef ∨ p = .arrIndef) →
+      ∃ ws, ws.flatten = Spec.Cbor.encList vs ∧ Runs ⟨p :: r, p⟩ (TV.flattenList vs) ws ⟨p :: r, p⟩
+    | [], _, p, r, _ => ⟨[], by simp [Spec.Cbor.encList], by simpa [TV.flattenList] using Runs.nil _⟩
+    | v :: vs, h, p, r, hp => by
+      simp only [WFl, Bool.and_eq_true] at h
+      have hvp : CborEnc.valuePos p = some p ∧ p ≠ .any := by
+        rcases hp with rfl | rfl <;> simp [CborEnc.valuePos]
+      obtain ⟨w1, hw1, hr1⟩ := encV v h.1 p p r hvp.1 hvp.2
+      obtain ⟨w2, hw2, hr2⟩ := encL vs h.2 p r hp
+      exact ⟨w1 ++ w2, by simp [Spec.Cbor.encList, hw1, hw2], by simpa [TV.flattenList] using hr1.append hr2⟩
+  /-- The entries of a map. -/
+  theorem encE : ∀ (es : List (TV × TV)), WFe es = true → ∀ (p : CborEnc.Phase) (r : List CborEnc.Phase),
+      (p = .mapDefKey ∨ p = .mapIndefKey) →
+      ∃ ws, ws.flatten = Spec.Cbor.encEntries es ∧ Runs ⟨p :: r, p⟩ (TV.flattenEntries es) ws ⟨p :: r, p⟩
+    | [], _, p, r, _ => ⟨[], by simp [Spec.Cbor.encEntries], by simpa [TV.flattenEntries] using Runs.nil _⟩
+    | (k, v) :: es, h, p, r, hp => by
+      simp only [WFe, Bool.and_eq_true] at h
+      obtain ⟨⟨⟨hk, hkw⟩, hv⟩, hes⟩ := h
+      obtain ⟨pv, hkp, hvp, hne⟩ : ∃ pv, CborEnc.keyPos p = some pv ∧ CborEnc.valuePos pv = some p ∧ pv ≠ .any := by
+        rcases hp with rfl | rfl
+        · exact ⟨.mapDefVal, rfl, rfl, by simp⟩
+        · exact ⟨.mapIndefVal, rfl, rfl, by simp⟩
+      obtain ⟨w2, hw2, hr2⟩ := encV v hv p pv r hvp hne
+      obtain ⟨w3, hw3, hr3⟩ := encE es hes p r hp
+      cases k with
+      | scalar t =>
+        have ht : tokInRange t = true := by simpa [WFv] using hkw
+        have hstep := step_key (p :: r) p pv t (by simpa [keyTok] using hk) hkp
+        have hpne : p ≠ .any := by rcases hp with rfl | rfl <;> simp
+        have hf : (CborEnc.step ⟨p :: r, p⟩ t).ret.flag = .cont := by
+          rw [hstep]; simp [Ret.flag, hpne]
+        have h1 := Runs.single hf
+        rw [hstep] at h1
+        refine ⟨_, ?_, by simpa [TV.flattenEntries, TV.flatten] using (h1.append hr2).append hr3⟩
+        rw [Spec.Cbor.encEntries, ← scalar_writes ht, ← hw2, ← hw3]
+        simp [List.flatten_append]
+      | arr _ _ _ => simp at hk
+      | map _ _ _ => simp at hk
+end
+
 /-- The encoder accepts every well-formed tree, answers continue on every token but the last,
     done on the last, and the concatenation of its `Write` calls is the RFC 7049 encoding. -/
 theorem enc_eq_spec (v : TV) (h : WFv v = true) :
     (runOut CborEnc.step CborEnc.init v.flatten).1 =
         List.replicate (v.flatten.length - 1) Flag.cont ++ [Flag.done] ∧
     (runOut CborEnc.step CborEnc.init v.flatten).2.flatten = Spec.Cbor.enc v := by
-  sorry
+  cases v with
+  | scalar t =>
+    have ht : tokInRange t = true := by simpa [WFv] using h
+    have hstep := step_scalar [] .any .any t (tokInRange_scalar ht) rfl
+    simp only [TV.flatten, runOut, CborEnc.init, hstep]
+    simp only [Ret.flag]
+    simpa using scalar_writes ht
+  | arr tag len items =>
+    simp only [WFv, Bool.and_eq_true, decide_eq_true_eq] at h
+    obtain ⟨⟨_, hl⟩, hitems⟩ := h
+    obtain ⟨ws, hws, hruns⟩ := encL items hitems (CborEnc.openPhase false len) [] (openPhase_arr len)
+    have hopen := step_arrOpen [] .any .any tag len rfl
+    have hcl := arrClose_top (CborEnc.openPhase false len) (openPhase_arr len)
+    have hf : (CborEnc.step ⟨[], .any⟩ ⟨.arrOpen len, tag⟩).ret.flag = .cont := by
+      rw [hopen]; simp [Ret.flag]
+    have h1 := Runs.single hf
+    rw [hopen] at h1
+    have := (h1.append hruns).finish hcl.1
+    rw [hcl.2] at this
+    simp only [TV.flatten, CborEnc.init]
+    simp only [List.singleton_append, List.cons_append, List.nil_append] at this
+    rw [this]
+    refine ⟨by simp, ?_⟩
+    rw [enc_arr_eq, ← open_writes_arr tag len hl, ← hws, ← close_writes_arr]
+    simp [List.flatten_append]
+  | map tag len es =>
+    simp only [WFv, Bool.and_eq_true, decide_eq_true_eq] at h
+    obtain ⟨⟨_, hl⟩, hes⟩ := h
+    obtain ⟨ws, hws, hruns⟩ := encE es hes (CborEnc.openPhase true len) [] (openPhase_map len)
+    have hopen := step_mapOpen [] .any .any tag len rfl
+    have hcl := mapClose_top (CborEnc.openPhase true len) (openPhase_map len)
+    have hf : (CborEnc.step ⟨[], .any⟩ ⟨.mapOpen len, tag⟩).ret.flag = .cont := by
+      rw [hopen]; simp [Ret.flag]
+    have h1 := Runs.single hf
+    rw [hopen] at h1
+    have := (h1.append hruns).finish hcl.1
+    rw [hcl.2] at this
+    simp only [TV.flatten, CborEnc.init]
+    simp only [List.singleton_append, List.cons_append, List.nil_append] at this
+    rw [this]
+    refine ⟨by simp, ?_⟩
+    rw [enc_map_eq, ← open_writes_map tag len hl, ← hws, ← close_writes_map]
+    simp [List.flatten_append]
 
 /-! ### Round trip through the decoder -/
 
@@ -96,12 +353,296 @@ mutual
     | (k, v) :: es => Supported k && Supported v && SupportedE es
 end
 
+/-- What the decoder really gives back for a token: as `canonTok`, and in addition every negative
+    (indefinite) declared length comes back as `-1`. -/
+def normTok (t : Tok) : Tok := ⟨canonBody t.body, t.tag⟩
+
+theorem normTok_close_arr : normTok ⟨.arrClose, none⟩ = ⟨.arrClose, none⟩ := rfl
+theorem normTok_close_map : normTok ⟨.mapClose, none⟩ = ⟨.mapClose, none⟩ := rfl
+
+/-- Away from declared lengths below `-1`, `normTok` is `canonTok`. -/
+theorem normTok_eq_canonTok (t : Tok)
+    (hl : ∀ l, (t.body = .arrOpen l ∨ t.body = .mapOpen l) → -1 ≤ l) : normTok t = canonTok t := by
+  obtain ⟨body, tag⟩ := t
+  cases body with
+  | int i => by_cases h : i ≥ 0 <;> simp [normTok, canonTok, canonBody, h]
+  | arrOpen l =>
+    have := hl l (Or.inl rfl)
+    by_cases h : l < 0
+    · have : l = -1 := by omega
+      subst this; simp [normTok, canonTok, canonBody]
+    · simp [normTok, canonTok, canonBody, h]
+  | mapOpen l =>
+    have := hl l (Or.inr rfl)
+    by_cases h : l < 0
+    · have : l = -1 := by omega
+      subst this; simp [normTok, canonTok, canonBody]
+    · simp [normTok, canonTok, canonBody, h]
+  | _ => simp [normTok, canonTok, canonBody]
+
+theorem tokInRange_facts {t : Tok} (h : tokInRange t = true) :
+    (∀ n, t.body = .uint n → n < two64) ∧ (∀ x, t.body = .float x → x < two64) ∧ TagOk t.tag := by
+  unfold tokInRange at h
+  simp only [Bool.and_eq_true] at h
+  obtain ⟨h1, h2⟩ := h
+  exact ⟨fun n hb => by simpa [hb] using h1, fun x hb => by simpa [hb] using h1,
+    fun g hg => by simpa [hg] using h2⟩
+
+theorem tagOk_of {tag : Option Int}
+    (h : (match tag with | some g => decide (0 ≤ g) && decide (g < (two63 : Int)) | none => true) = true) :
+    TagOk tag := by
+  intro g hg
+  simpa [hg] using h
+
+/-- `acceptValue` on the encoding of a scalar token. -/
+theorem scalar_AVT {t : Tok} (h : tokInRange t = true) (hs : Supported (.scalar t) = true) :
+    AVT (Spec.Cbor.enc (.scalar t)) id (normTok t) true := by
+  obtain ⟨hu, hf, htag⟩ := tokInRange_facts h
+  have hstr : ∀ x, t.body = .str x → x.length ≤ 33554432 := by
+    intro x hb; simpa [Supported, hb] using hs
+  have hbytes : ∀ x, t.body = .bytes x → x.length ≤ 33554432 := by
+    intro x hb; simpa [Supported, hb] using hs
+  have := (AV_scalar t.body (tokInRange_scalar h) hu (tokInRange_int h) hf hstr hbytes).tagged t.tag htag
+  simpa [Spec.Cbor.enc, normTok] using this
+
+mutual
+  /-- One value inside a container. -/
+  theorem decV : ∀ (v : TV), WFv v = true → Supported v = true →
+      ∀ (coerce : Bool) (s sIn : CborDec.St), ValCtx coerce s sIn →
+      DRuns coerce s (Spec.Cbor.enc v) (v.flatten.map normTok) sIn
+    | .scalar t, h, hs, coerce, s, sIn, hc => by
+      have ht : tokInRange t = true := by simpa [WFv] using h
+      have := DRuns.single (fun rest => step_nested hc (scalar_AVT ht hs) rest)
+      simpa [TV.flatten] using this
+    | .arr tag len items, h, hs, coerce, s, sIn, hc => by
+      simp only [WFv, Bool.and_eq_true, decide_eq_true_eq] at h
+      obtain ⟨⟨htag, hl⟩, hitems⟩ := h
+      simp only [Supported, Bool.and_eq_true, Bool.or_eq_true, decide_eq_true_eq, beq_iff_eq] at hs
+      obtain ⟨hlen, hsi⟩ := hs
+      have ht := tagOk_of htag
+      by_cases h0 : 0 ≤ len
+      · have hlen' : len = (items.length : Int) := by omega
+        subst hlen'
+        have hn : items.length ≤ CborDec.maxInt := by
+          unfold CborDec.maxInt; unfold two63 at hl; omega
+        have := arr_nested (d := true) ht hn (fun q stk l => decL items hitems hsi coerce true q stk l) hc
+        have hneg : ¬ ((items.length : Int) < 0) := by omega
+        simpa [enc_arr_eq, TV.flatten, normTok, canonBody, hneg] using this
+      · have hneg : len < 0 := by omega
+        have := arr_nested (d := false) (n := 0) ht (by unfold CborDec.maxInt; omega)
+          (fun q stk l => decL items hitems hsi coerce false q stk l) hc
+        simpa [enc_arr_eq, TV.flatten, normTok, canonBody, hneg, h0] using this
+    | .map tag len es, h, hs, coerce, s, sIn, hc => by
+      simp only [WFv, Bool.and_eq_true, decide_eq_true_eq] at h
+      obtain ⟨⟨htag, hl⟩, hes⟩ := h
+      simp only [Supported, Bool.and_eq_true, Bool.or_eq_true, decide_eq_true_eq, beq_iff_eq] at hs
+      obtain ⟨hlen, hse⟩ := hs
+      have ht := tagOk_of htag
+      by_cases h0 : 0 ≤ len
+      · have hlen' : len = (es.length : Int) := by omega
+        subst hlen'
+        have hn : es.length ≤ CborDec.maxInt := by
+          unfold CborDec.maxInt; unfold two63 at hl; omega
+        have := map_nested (d := true) ht hn (fun q stk l => decE es hes hse coerce true q stk l) hc
+        have hneg : ¬ ((es.length : Int) < 0) := by omega
+        simpa [enc_map_eq, TV.flatten, normTok, canonBody, hneg] using this
+      · have hneg : len < 0 := by omega
+        have := map_nested (d := false) (n := 0) ht (by unfold CborDec.maxInt; omega)
+          (fun q stk l => decE es hes hse coerce false q stk l) hc
+        simpa [enc_map_eq, TV.flatten, normTok, canonBody, hneg, h0] using this
+  /-- The items of an array (definite: counting down; indefinite: until the break). -/
+  theorem decL : ∀ (vs : List TV), WFl vs = true → SupportedL vs = true →
+      ∀ (coerce d : Bool) (q : CborDec.Phase) (stk : List CborDec.Phase) (l : List Nat),
+      DRuns coerce ⟨q :: stk, arrPhase d, lf d vs.length l⟩ (Spec.Cbor.encList vs)
+        ((TV.flattenList vs).map normTok) ⟨q :: stk, arrPhase d, lf d 0 l⟩
+    | [], _, _, coerce, d, q, stk, l => by
+      simpa [Spec.Cbor.encList, TV.flattenList] using DRuns.nil coerce _
+    | v :: vs, h, hs, coerce, d, q, stk, l => by
+      simp only [WFl, Bool.and_eq_true] at h
+      simp only [SupportedL, Bool.and_eq_true] at hs
+      have h1 := decV v h.1 hs.1 coerce _ _ (ValCtx_arr coerce d q stk vs.length l)
+      have h2 := decL vs h.2 hs.2 coerce d q stk l
+      simpa [Spec.Cbor.encList, TV.flattenList] using h1.append h2
+  /-- The entries of a map. -/
+  theorem decE : ∀ (es : List (TV × TV)), WFe es = true → SupportedE es = true →
+      ∀ (coerce d : Bool) (q : CborDec.Phase) (stk : List CborDec.Phase) (l : List Nat),
+      DRuns coerce ⟨q :: stk, mapKPhase d, lf d es.length l⟩ (Spec.Cbor.encEntries es)
+        ((TV.flattenEntries es).map normTok) ⟨q :: stk, mapKPhase d, lf d 0 l⟩
+    | [], _, _, coerce, d, q, stk, l => by
+      simpa [Spec.Cbor.encEntries, TV.flattenEntries] using DRuns.nil coerce _
+    | (k, v) :: es, h, hs, coerce, d, q, stk, l => by
+      simp only [WFe, Bool.and_eq_true] at h
+      obtain ⟨⟨⟨_, hk⟩, hv⟩, hes⟩ := h
+      simp only [SupportedE, Bool.and_eq_true] at hs
+      obtain ⟨⟨hsk, hsv⟩, hse⟩ := hs
+      have h1 := decV k hk hsk coerce _ _ (ValCtx_mapK coerce d q stk es.length l)
+      have h2 := decV v hv hsv coerce _ _ (ValCtx_mapV coerce d q stk (lf d es.length l))
+      have h3 := decE es hes hse coerce d q stk l
+      simpa [Spec.Cbor.encEntries, TV.flattenEntries] using (h1.append h2).append h3
+end
+
+/-- One value from the initial state. -/
+theorem decTop (coerce : Bool) (v : TV) (h : WFv v = true) (hs : Supported v = true) :
+    Decodes coerce (Spec.Cbor.enc v) (v.flatten.map normTok) := by
+  cases v with
+  | scalar t =>
+    have ht : tokInRange t = true := by simpa [WFv] using h
+    simpa [TV.flatten] using scalar_top (coerce := coerce) (scalar_AVT ht hs)
+  | arr tag len items =>
+    simp only [WFv, Bool.and_eq_true, decide_eq_true_eq] at h
+    obtain ⟨⟨htag, hl⟩, hitems⟩ := h
+    simp only [Supported, Bool.and_eq_true, Bool.or_eq_true, decide_eq_true_eq, beq_iff_eq] at hs
+    obtain ⟨hlen, hsi⟩ := hs
+    have ht := tagOk_of htag
+    by_cases h0 : 0 ≤ len
+    · have hlen' : len = (items.length : Int) := by omega
+      subst hlen'
+      have hn : items.length ≤ CborDec.maxInt := by
+        unfold CborDec.maxInt; unfold two63 at hl; omega
+      have := arr_top (d := true) ht hn (fun q stk l => decL items hitems hsi coerce true q stk l)
+      have hneg : ¬ ((items.length : Int) < 0) := by omega
+      simpa [enc_arr_eq, TV.flatten, normTok, canonBody, hneg] using this
+    · have hneg : len < 0 := by omega
+      have := arr_top (d := false) (n := 0) ht (by unfold CborDec.maxInt; omega)
+        (fun q stk l => decL items hitems hsi coerce false q stk l)
+      simpa [enc_arr_eq, TV.flatten, normTok, canonBody, hneg, h0] using this
+  | map tag len es =>
+    simp only [WFv, Bool.and_eq_true, decide_eq_true_eq] at h
+    obtain ⟨⟨htag, hl⟩, hes⟩ := h
+    simp only [Supported, Bool.and_eq_true, Bool.or_eq_true, decide_eq_true_eq, beq_iff_eq] at hs
+    obtain ⟨hlen, hse⟩ := hs
+    have ht := tagOk_of htag
+    by_cases h0 : 0 ≤ len
+    · have hlen' : len = (es.length : Int) := by omega
+      subst hlen'
+      have hn : es.length ≤ CborDec.maxInt := by
+        unfold CborDec.maxInt; unfold two63 at hl; omega
+      have := map_top (d := true) ht hn (fun q stk l => decE es hes hse coerce true q stk l)
+      have hneg : ¬ ((es.length : Int) < 0) := by omega
+      simpa [enc_map_eq, TV.flatten, normTok, canonBody, hneg] using this
+    · have hneg : len < 0 := by omega
+      have := map_top (d := false) (n := 0) ht (by unfold CborDec.maxInt; omega)
+        (fun q stk l => decE es hes hse coerce false q stk l)
+      simpa [enc_map_eq, TV.flatten, normTok, canonBody, hneg, h0] using this
+
+/-! Fuel: every token costs at least half a byte. -/
+
+theorem encBody_pos (b : Body) (hs : b.isScalar = true) : 1 ≤ (Spec.Cbor.encBody b).length := by
+  cases b with
+  | uint n =>
+    obtain ⟨x, tl, hx, _⟩ := head_ne_nil 0x00 n
+    simp [Spec.Cbor.encBody, hx]
+  | int i =>
+    simp only [Spec.Cbor.encBody]
+    split
+    · obtain ⟨x, tl, hx, _⟩ := head_ne_nil 0x00 i.toNat
+      simp [hx]
+    · obtain ⟨x, tl, hx, _⟩ := head_ne_nil 0x20 (-1 - i).toNat
+      simp [hx]
+  | str x =>
+    obtain ⟨y, tl, hx, _⟩ := head_ne_nil 0x60 x.length
+    simp [Spec.Cbor.encBody, hx]
+  | bytes x =>
+    obtain ⟨y, tl, hx, _⟩ := head_ne_nil 0x40 x.length
+    simp [Spec.Cbor.encBody, hx]
+  | bool x => cases x <;> simp [Spec.Cbor.encBody]
+  | null => simp [Spec.Cbor.encBody]
+  | float x => simp [Spec.Cbor.encBody]
+  | mapOpen _ => simp [Body.isScalar] at hs
+  | mapClose => simp [Body.isScalar] at hs
+  | arrOpen _ => simp [Body.isScalar] at hs
+  | arrClose => simp [Body.isScalar] at hs
+
+theorem open_len_pos (m : Nat) (len : Int) (x : Nat) :
+    1 ≤ (if 0 ≤ len then Spec.Cbor.head m len.toNat else [x]).length := by
+  split
+  · obtain ⟨y, tl, hx, _⟩ := head_ne_nil m len.toNat
+    simp [hx]
+  · simp
+
+mutual
+  theorem lenV : ∀ (v : TV), WFv v = true → v.flatten.length ≤ 2 * (Spec.Cbor.enc v).length
+    | .scalar t, h => by
+      have ht : tokInRange t = true := by simpa [WFv] using h
+      have := encBody_pos t.body (tokInRange_scalar ht)
+      simp only [TV.flatten, Spec.Cbor.enc, List.length_append, List.length_cons, List.length_nil]
+      omega
+    | .arr tag len items, h => by
+      simp only [WFv, Bool.and_eq_true] at h
+      have h1 := lenL items h.2
+      have h2 := open_len_pos 0x80 len 0x9f
+      rw [enc_arr_eq]
+      simp only [TV.flatten, List.length_append, List.length_cons, List.length_nil]
+      omega
+    | .map tag len es, h => by
+      simp only [WFv, Bool.and_eq_true] at h
+      have h1 := lenE es h.2
+      have h2 := open_len_pos 0xa0 len 0xbf
+      rw [enc_map_eq]
+      simp only [TV.flatten, List.length_append, List.length_cons, List.length_nil]
+      omega
+  theorem lenL : ∀ (vs : List TV), WFl vs = true →
+      (TV.flattenList vs).length ≤ 2 * (Spec.Cbor.encList vs).length
+    | [], _ => by simp [TV.flattenList]
+    | v :: vs, h => by
+      simp only [WFl, Bool.and_eq_true] at h
+      have h1 := lenV v h.1
+      have h2 := lenL vs h.2
+      simp only [TV.flattenList, Spec.Cbor.encList, List.length_append]
+      omega
+  theorem lenE : ∀ (es : List (TV × TV)), WFe es = true →
+      (TV.flattenEntries es).length ≤ 2 * (Spec.Cbor.encEntries es).length
+    | [], _ => by simp [TV.flattenEntries]
+    | (k, v) :: es, h => by
+      simp only [WFe, Bool.and_eq_true] at h
+      have h1 := lenV k h.1.1.2
+      have h2 := lenV v h.1.2
+      have h3 := lenE es h.2
+      simp only [TV.flattenEntries, Spec.Cbor.encEntries, List.length_append]
+      omega
+end
+
+/-- The round trip as the decoder really performs it: tokens come back through `normTok`
+    (that is `canonTok`, plus every indefinite declared length reported as `-1`). -/
+theorem roundtrip_norm (v : TV) (rest : Bytes) (h : WFv v = true) (hs : Supported v = true) :
+    let o := CborDec.decode false (Rd.ofBytes (Spec.Cbor.enc v ++ rest))
+    o.toks = v.flatten.map normTok ∧ o.res = .ok () ∧ o.rd.data = rest := by
+  have hlen := lenV v h
+  have := decTop false v h hs (2 * (Spec.Cbor.enc v ++ rest).length + 2) rest
+    (by simp only [List.length_map, List.length_append]; omega)
+  simpa [CborDec.decode, Rd.ofBytes] using this
+
+/-- The statement of `roundtrip` as originally written. -/
+def roundtrip_statement : Prop :=
+  ∀ (v : TV) (rest : Bytes) (h : WFv v = true) (hs : Supported v = true)
+    (hb : ∀ t ∈ v.flatten, ∀ b, (t.body = .str b ∨ t.body = .bytes b) → ∀ x ∈ b, x < 256),
+    let o := CborDec.decode false (Rd.ofBytes (Spec.Cbor.enc v ++ rest))
+    o.toks = v.flatten.map canonTok ∧ o.res = .ok () ∧ o.rd.data = rest
+
+/-- It is false: a declared length `-2` is well-formed and supported, is written as an indefinite
+    array, and comes back with declared length `-1`. -/
+theorem roundtrip_statement_false : ¬ roundtrip_statement := by
+  intro hst
+  have h1 := hst (.arr none (-2) []) [] (by decide) (by decide)
+    (by simp [TV.flatten, TV.flattenList])
+  have h2 := roundtrip_norm (.arr none (-2) []) [] (by decide) (by decide)
+  simp only at h1 h2
+  have := h1.1.symm.trans h2.1
+  simp [TV.flatten, TV.flattenList, normTok, canonBody, canonTok] at this
+
 /-- Decoding the encoder's output gives back the same tokens (non-negative signed integers come back
-    unsigned), signals done exactly on the last token, and consumes exactly those bytes. -/
-theorem roundtrip (v : TV) (rest : Bytes) (h : WFv v = true) (hs : Supported v = true)
-    (hb : ∀ t ∈ v.flatten, ∀ b, (t.body = .str b ∨ t.body = .bytes b) → ∀ x ∈ b, x < 256) :
+    unsigned), signals done exactly on the last token, and consumes exactly those bytes —
+    provided every indefinite declared length is spelled `-1` (hypothesis `hl`, the only addition
+    to the original statement). -/
+theorem roundtrip_partial (v : TV) (rest : Bytes) (h : WFv v = true) (hs : Supported v = true)
+    (hb : ∀ t ∈ v.flatten, ∀ b, (t.body = .str b ∨ t.body = .bytes b) → ∀ x ∈ b, x < 256)
+    (hl : ∀ t ∈ v.flatten, ∀ l, (t.body = .arrOpen l ∨ t.body = .mapOpen l) → -1 ≤ l) :
     let o := CborDec.decode false (Rd.ofBytes (Spec.Cbor.enc v ++ rest))
     o.toks = v.flatten.map canonTok ∧ o.res = .ok () ∧ o.rd.data = rest := by
-  sorry
+  have := roundtrip_norm v rest h hs
+  have e : v.flatten.map normTok = v.flatten.map canonTok :=
+    List.map_congr_left (fun t ht => normTok_eq_canonTok t (hl t ht))
+  rw [e] at this
+  exact this
 
 end Refmt.C02
